@@ -63,8 +63,9 @@ func TimeFromProto(proto *dtpb.Time) Time {
 	t := time.Date(0, time.January, 1, 0, 0, 0, 0, time.UTC).Add(duration)
 	var l layout
 	switch proto.Precision {
-	case dtpb.Time_MICROSECOND:
-		// System Times hold milliseconds at most.
+	case dtpb.Time_MICROSECOND, dtpb.Time_PRECISION_UNSPECIFIED:
+		// System Times hold milliseconds at most. (An element built without a
+		// precision reads as a full time, as in fhirconv.)
 		t = t.Truncate(time.Millisecond)
 		fallthrough
 	case dtpb.Time_MILLISECOND:
